@@ -198,6 +198,9 @@ func (c *Classifier) match(in io.Reader) (Results, error) {
 		}
 	}
 
+	if verifOn {
+		verifEmit("retain", "cands", candidates, "retain", retain)
+	}
 	var out Matches
 	for i, keep := range retain {
 		if keep {
